@@ -228,6 +228,31 @@ func (q Seq) Expand() []bool {
 				out[i] = !out[i]
 			}
 		}
+	case "nearflat": // every byte value (almost) equally often (shuffled), then A random single-bit flips: statistics just off their ideal value
+		nb := n / 8
+		bs := make([]byte, nb)
+		for i := range bs {
+			bs[i] = byte(i)
+		}
+		for i := nb - 1; i > 0; i-- {
+			j := r.Intn(i + 1)
+			bs[i], bs[j] = bs[j], bs[i]
+		}
+		for i := 0; i < nb*8; i++ {
+			out[i] = bs[i/8]>>uint(7-i%8)&1 == 1
+		}
+		for i := nb * 8; i < n; i++ {
+			out[i] = r.Uint64()&1 == 1
+		}
+		for f := 0; f < q.A && n > 0; f++ {
+			p := r.Intn(n)
+			out[p] = !out[p]
+		}
+	case "prefixconst": // a source that is stuck at value A for the first Pos[0] bits and healthy (uniform) afterwards
+		fillUniform(out, r)
+		for i := 0; i < q.Pos[0] && i < n; i++ {
+			out[i] = q.A != 0
+		}
 	case "bytewords": // 64-bit (8-byte) aligned words, each all-zero / all-one / random / alternating with weights from A (percent of constant words)
 		for w := 0; w*64 < n; w++ {
 			kind := r.Intn(100)
@@ -400,7 +425,7 @@ func Unpack(data []byte) []bool {
 
 // Families lists the general-purpose families drawn by DrawSeq.
 var Families = []string{"explicit", "uniform", "biased", "constant", "alternating", "periodic", "sparse",
-	"markov", "transition", "longrun", "runs", "walk", "tone", "balanced", "debruijn", "bytewords"}
+	"markov", "transition", "longrun", "runs", "walk", "tone", "balanced", "debruijn", "bytewords", "nearflat", "prefixconst"}
 
 // DrawSeq draws a recipe of length n from the given families (nil = all).
 // "explicit" is only used for n <= 4096 (bits are rapid draws and shrink structurally).
@@ -462,6 +487,13 @@ func DrawSeq(t *rapid.T, n int, families []string) Seq {
 		z := int(math.Round(math.Pow(float64(n), e)))
 		q.A = max(1, min(n, z))
 		q.B = rapid.IntRange(0, 1).Draw(t, "down")
+	case "nearflat":
+		q.Seed = seed()
+		q.A = rapid.SampledFrom([]int{0, 1, 2, 5, 20, 60, 200}).Draw(t, "flips")
+	case "prefixconst":
+		q.Seed = seed()
+		q.A = rapid.IntRange(0, 1).Draw(t, "stuck")
+		q.Pos = []int{n * rapid.IntRange(1, 9).Draw(t, "tenths") / 10}
 	case "bytewords":
 		q.Seed = seed()
 		q.A = rapid.SampledFrom([]int{5, 20, 50, 80, 95}).Draw(t, "constant_percent")
